@@ -118,6 +118,8 @@ var c05Terms = []c05Term{
 	}},
 	{"a + b > 6", []string{"a", "b"}, func(r map[string]any) bool { return numField(r, "a")+numField(r, "b") > 6 }},
 	{"a = 4", []string{"a"}, func(r map[string]any) bool { return numField(r, "a") == 4 }},
+	{"a != 4", []string{"a"}, func(r map[string]any) bool { return numField(r, "a") != 4 }},
+	{"b != 2", []string{"b"}, func(r map[string]any) bool { return numField(r, "b") != 2 }},
 	likeTerm("a%"), likeTerm("%ab"), likeTerm("a%ab"), likeTerm("%ab_"), likeTerm("a_%b"), likeTerm("%a%b%"), likeTerm("x%"),
 }
 
@@ -300,6 +302,7 @@ func rowID(r map[string]any) string {
 func (c05) Run(e *Env) {
 	fresh := map[string]map[string]any{}
 	freshErr := map[string]string{}
+	composed := map[string]bool{} // row id -> the predicate's value composed from its terms evaluated alone
 	e.hooks.CustomOp = func(env *Env, client int, rec *OpRec) bool {
 		if rec.Op.K != "fresh" {
 			return false
@@ -319,6 +322,35 @@ func (c05) Run(e *Env) {
 			fresh[rec.Op.Tag] = nil
 		}
 		s.Stop()
+		// the predicate's terms one at a time, each in an instance of its own: whatever the
+		// engine takes a comparison with a missing or NULL operand to be, "t1 AND t2" is true iff
+		// both are and "t1 OR t2" iff one is (the generated predicates contain no NOT, so
+		// three-valued and two-valued evaluation agree on whether the row passes)
+		if l, ok := env.C.X["where_terms"].([]any); ok && len(l) >= 2 {
+			conn := env.C.xStr("where_conn")
+			val := conn == "AND"
+			for _, x := range l {
+				k, _ := toInt64(x)
+				if int(k) >= len(c05Terms) {
+					return true
+				}
+				st := streamsql.New(streamsql.WithLogger(capLogger{env}))
+				if err := st.Execute("SELECT * FROM stream WHERE " + c05Terms[k].SQL); err != nil {
+					return true
+				}
+				o, err := st.EmitSync(copyRow(rec.Op.Row))
+				st.Stop()
+				if err != nil {
+					return true
+				}
+				if conn == "AND" {
+					val = val && o != nil
+				} else {
+					val = val || o != nil
+				}
+			}
+			composed[rec.Op.Tag] = val
+		}
 		return true
 	}
 	if err := e.Setup(); err != nil {
@@ -479,6 +511,24 @@ func (c05) Run(e *Env) {
 				e.Violate("C05/sync-async-disagree", "concurrent-presence", "row %s: EmitSync issued while the same instance processed Emit rows returned a result=%v, a quiet instance returns a result=%v", id, sc.has, bok)
 			} else if bok && !deepEqual(sc.out, want) {
 				e.Violate("C05/sync-async-disagree", "concurrent-value", "row %s: EmitSync issued while the same instance processed Emit rows returned %s, a quiet instance returns %s", id, canon(sc.out), canon(want))
+			}
+		}
+		if cv, has := composed[id]; has {
+			e.Probe("where_composed_from_single_terms")
+			if f, fh := fresh[id]; fh && (f != nil) != cv {
+				site := "not-compositional"
+				if wconn == "OR" && f == nil {
+					for _, t := range wterms {
+						for _, fl := range t.Fields {
+							if !hasField(row, fl) {
+								// one kind, recorded as a known finding: a term that cannot be evaluated
+								// on a missing operand takes the whole OR chain down with it
+								site = "not-compositional/OR-chain-rejected-with-a-missing-operand"
+							}
+						}
+					}
+				}
+				e.Violate("C05/where", site, "row %s: WHERE %s let the row pass=%v, but its terms evaluated one at a time (each as the whole WHERE of an instance of its own) combine to %v", canon(row), e.C.Insts[0].SQL[strings.Index(e.C.Insts[0].SQL, " WHERE ")+7:], f != nil, cv)
 			}
 		}
 		if len(wterms) > 0 {
